@@ -47,7 +47,7 @@ EXPLANATION = (
     "faithfulness of the returned tree on the supported subset (value level), recursion depth / stack use, "
     "exceptions thrown by the standard library (bad_alloc).")
 
-CAP = 4
+CAP = 8
 SPACE = {9, 10, 11, 12, 13, 32}
 CTYPE_FALSE_AT_0 = {'isalpha', 'isdigit', 'isalnum', 'isspace', 'isblank', 'isprint', 'isgraph', 'ispunct',
                     'isupper', 'islower', 'isxdigit'}
@@ -138,6 +138,27 @@ class Engine:
             cv = self.tu.sd(x).get('cv')
             if cv is not None:
                 return int(cv)
+        return None
+
+    def int_of(self, e, st):
+        """integer value of an expression: a constant, or an integer local whose value is known on this path (`len = strlen(word)` for a
+        word of known exact length)"""
+        c = self.const_of(e)
+        if c is not None:
+            return c
+        d = self.tu.ref_decl(e) if e is not None else None
+        if d is not None and ('n', d) in st:
+            return st[('n', d)]
+        return None
+
+    def exact_len(self, e, st):
+        """exact length of the NUL-terminated string an expression designates: a literal, or a cursor bound to one that has not moved"""
+        lb = self.lit_bytes(e)
+        if lb is not None and 0 not in lb:
+            return len(lb)
+        v, _ = self.decl_of(e)
+        if v is not None and ('len', v) in st:
+            return st[('len', v)]
         return None
 
     def char_class_of(self, e, st, depth=0):
@@ -305,6 +326,69 @@ class Engine:
                     return self.lit_bytes(init[-1], depth + 1) if init else None
         return None
 
+    def learn_equal_prefix(self, st, call):
+        """memcmp / strncmp(a, b, n) == 0 with one operand a string of exact length m >= n (no NUL among its first n bytes): the first n
+        bytes of the other operand are non-NUL"""
+        args = self.tu.call_parts(call)[2]
+        if len(args) != 3:
+            return st
+        n = self.int_of(args[2], st)
+        if n is None:
+            return st
+        for a, b in ((args[0], args[1]), (args[1], args[0])):
+            m = self.exact_len(b, st)
+            v, _ = self.decl_of(a)
+            if m is not None and n <= m and v is not None and ('c', v) in st:
+                K, A, N0, B1, NE = st[('c', v)]
+                st = dict(st)
+                st[('c', v)] = (max(K, min(n, CAP)), A, N0 if n == 0 else 0, B1, NE if n == 0 else ())
+                return st
+        return st
+
+    SEARCH_FNS = ('strstr', 'strchr', 'strrchr', 'strpbrk', 'memchr', 'strcasestr')
+
+    def search_result(self, st, v, rhs):
+        """`v = strstr(src, needle)` and relatives: the result is NULL when nothing is found; otherwise it points at the match inside the
+        string src points into (K = length of the literal needle).  Returns True if rhs has this form."""
+        tu = self.tu
+        r = tu.strip(rhs, casts=True)
+        if r is None or r.get('kind') != 'CallExpr' or tu.sd(r).get('q', '').split('::')[-1] not in self.SEARCH_FNS:
+            return False
+        q = tu.sd(r).get('q', '').split('::')[-1]
+        args = tu.call_parts(r)[2]
+        src, _ = self.decl_of(args[0]) if args else (None, None)
+        k = 0
+        first = None
+        if q in ('strstr', 'strcasestr') and len(args) == 2:
+            lb = self.lit_bytes(args[1])
+            k = min(len(lb), CAP) if lb is not None and 0 not in lb else 0
+            first = lb[0] if lb and q == 'strstr' else None
+        elif q in ('strchr', 'strrchr', 'memchr') and len(args) >= 2:
+            c = self.const_of(args[1])
+            k = 1 if c not in (None, 0) else 0
+            first = (c & 0xff) if k else None
+        elif q == 'strpbrk':
+            k = 1
+        ne = tuple(sorted(b for b in (9, 10, 13, 32) if b != first)) if first is not None else ()
+        anchored = 0
+        if src is not None and ('c', src) in st:
+            anchored = st[('c', src)][1]
+        st[('c', v)] = (k, anchored, 0, 0, ne)
+        self.le_forget(st, v)
+        if src is not None and ('c', src) in st and src != v:
+            st[('le', src, v)] = 1
+        st[('null', v)] = tu.show(r)[:40]
+        return True
+
+    def need_nonnull(self, f, st, v, node, what):
+        if ('null', v) in st:
+            nm = self.names.get(v, '?')
+            self.finding('R-C16-1', f, 'null-cursor:%s' % nm,
+                         '%s uses `%s`, the result of `%s`, which is a null pointer when nothing was found: no test for null lies between the '
+                         'search and this use, so a file without the searched text makes the parser dereference null (a crash, not a '
+                         'std::runtime_error)' % (what, nm, st[('null', v)]), node)
+            st.pop(('null', v), None)          # report once per path
+
     def nul_true_note(self, f):
         """names the character predicates called in f that are true for the NUL byte (they cannot justify an advance)"""
         tu = self.tu
@@ -394,6 +478,22 @@ class Engine:
         st['$vals'] = fz(vals)
         if k == 'UnaryOperator' and e.get('opcode') == '!':
             return self.assume(tu.kids(e)[0], not t, st, depth + 1)
+        if k == 'DeclRefExpr':
+            v0, _ = self.decl_of(e)
+            if v0 is not None and ('null', v0) in st and t:
+                st = dict(st)
+                st.pop(('null', v0), None)
+                return st
+        if k == 'BinaryOperator' and e.get('opcode') in ('==', '!='):
+            for L_, R_ in (tu.kids(e), tu.kids(e)[::-1]):
+                v0, _ = self.decl_of(L_)
+                r0 = tu.strip(R_, casts=True)
+                if v0 is not None and ('null', v0) in st and r0 is not None and (
+                        r0.get('kind') in ('CXXNullPtrLiteralExpr', 'GNUNullExpr') or (r0.get('kind') == 'IntegerLiteral' and r0.get('value') == '0')):
+                    if (e['opcode'] == '!=') == t:
+                        st = dict(st)
+                        st.pop(('null', v0), None)
+                    return st
         if k == 'BinaryOperator' and e.get('opcode') in ('&&', '||'):
             L, R = tu.kids(e)
             conj = (e['opcode'] == '&&')
@@ -427,6 +527,11 @@ class Engine:
             ks = tu.kids(e)
             eq = (e['opcode'] == '==') == t
             for L, R in ((ks[0], ks[1]), (ks[1], ks[0])):
+                L0 = tu.strip(L, casts=True)
+                if L0 is not None and L0.get('kind') == 'CallExpr' and tu.sd(L0).get('q', '').split('::')[-1] in ('memcmp', 'bcmp', 'strncmp') \
+                        and self.const_of(R) == 0 and eq:
+                    return self.learn_equal_prefix(st, L0)
+            for L, R in ((ks[0], ks[1]), (ks[1], ks[0])):
                 r = self.read_of(L, st)
                 if r is None:
                     continue
@@ -450,6 +555,8 @@ class Engine:
                         st[('h', v)] = 'NZ'
                     return st
             return st
+        if k == 'CallExpr' and tu.sd(e).get('q', '').split('::')[-1] in ('memcmp', 'bcmp', 'strncmp'):
+            return self.learn_equal_prefix(st, e) if not t else st
         if k == 'CallExpr':
             q = tu.sd(e).get('q', '')
             args = tu.call_parts(e)[2]
@@ -506,6 +613,7 @@ class Engine:
             del st[k]
         for k in strict:
             del st[k]
+        st.pop(('len', v), None)
 
     @staticmethod
     def le_backward(st, v):
@@ -516,11 +624,13 @@ class Engine:
                 del st[k]
         for x in strict:
             del st[('lt', x, v)]
+        st.pop(('len', v), None)
 
     @staticmethod
     def le_forget(st, v):
         for k in [k for k in st if isinstance(k, tuple) and k[0] in ('le', 'lt') and (k[1] == v or k[2] == v)]:
             del st[k]
+        st.pop(('len', v), None)
 
     @staticmethod
     def strictly_after(st, v):
@@ -612,6 +722,7 @@ class Engine:
                     r = eng.read_of(n, st)
                     if r is not None:
                         v, j = r
+                        eng.need_nonnull(f, st, v, n, 'the read `%s`' % tu.show(n)[:30])
                         K, A, N0, B1, NE = st[('c', v)]
                         nm = eng.names.get(v, '?')
                         if j is None:
@@ -661,9 +772,9 @@ class Engine:
                             vv = eng.ev(cnd, st)
                             if vv is not None and vv != t:
                                 continue
-                            cases.append((eng.assume(cnd, t, dict(st)), eng.const_of(arm)))
+                            cases.append((eng.assume(cnd, t, dict(st)), eng.int_of(arm, st)))
                     else:
-                        cases.append((st, eng.const_of(ks[1])))
+                        cases.append((st, eng.int_of(ks[1], st)))
                     span = None
                     if rhs is not None and rhs.get('kind') == 'CallExpr' and n.get('opcode') == '+=':
                         q = tu.sd(rhs).get('q', '').split('::')[-1]
@@ -732,9 +843,14 @@ class Engine:
                 v, nm = eng.decl_of(ks[0])
                 if v is not None and ('c', v) in st:
                     src, _ = eng.decl_of(ks[1])
+                    st.pop(('null', v), None)
                     if src is not None and ('c', src) in st:
                         st[('c', v)] = st[('c', src)]
                         eng.le_copy(st, v, src)
+                        if ('null', src) in st:
+                            st[('null', v)] = st[('null', src)]
+                    elif eng.search_result(st, v, ks[1]):
+                        pass
                     else:
                         st[('c', v)] = (0, 0, 0, 0, ())
                         eng.le_forget(st, v)
@@ -756,14 +872,30 @@ class Engine:
                         if src is not None and ('c', src) in st:
                             st[('c', vd['id'])] = st[('c', src)]
                             eng.le_copy(st, vd['id'], src)
+                            if ('null', src) in st:
+                                st[('null', vd['id'])] = st[('null', src)]
+                        elif init is not None and eng.search_result(st, vd['id'], init):
+                            pass
                         else:
                             lit = tu.strip(init, casts=True) if init is not None else None
                             if lit is not None and lit.get('kind') == 'StringLiteral':
                                 st[('c', vd['id'])] = (min(eng.strlen(lit), CAP), 0, 0, 0, ())
+                                lb_ = eng.lit_bytes(lit)
+                                if lb_ is not None and 0 not in lb_:
+                                    st[('len', vd['id'])] = len(lb_)
                             # any other provenance (new[], library result): not a cursor into the parsed buffer
                     elif kind == 'chr':
                         eng.names[vd['id']] = vd.get('name', '?')
                         st[('h', vd['id'])] = eng.char_class_of(init, st) if init is not None else '?'
+                    elif init is not None and re.match(r'^(const )?(unsigned |signed )?(size_t|int|long|unsigned long|unsigned int|std::size_t|ssize_t|unsigned)( int)?$', ct.strip()):
+                        i0 = tu.strip(init, casts=True)
+                        val = None
+                        if i0 is not None and i0.get('kind') == 'CallExpr' and tu.sd(i0).get('q', '').split('::')[-1] == 'strlen' and tu.call_parts(i0)[2]:
+                            val = eng.exact_len(tu.call_parts(i0)[2][0], st)
+                        elif i0 is not None:
+                            val = eng.int_of(i0, st)
+                        if val is not None:
+                            st[('n', vd['id'])] = val
                 return [fz(st)]
             if k in ('CallExpr', 'CXXMemberCallExpr', 'CXXOperatorCallExpr'):
                 return eng.do_call(f, n, st, moved)
@@ -849,6 +981,24 @@ class Engine:
         tu = self.tu
         cf = tu.callee_fn(n)
         sd, obj, args = tu.call_parts(n)
+        qn = sd.get('q', '').split('::')[-1]
+        if qn in ('memcmp', 'bcmp') and len(args) == 3:
+            # memcmp may read all n bytes of both operands, wherever the first difference is
+            nbytes = self.int_of(args[2], st)
+            for a in args[:2]:
+                v, nm = self.decl_of(a)
+                if v is None or ('c', v) not in st:
+                    continue
+                K = st[('c', v)][0]
+                avail = st[('len', v)] + 1 if ('len', v) in st else K + 1      # bytes known to lie inside the object
+                if nbytes is None:
+                    self.undecide(f, '%s reads through cursor `%s` with a length that is not known on this path' % (qn, nm), n)
+                elif nbytes > avail:
+                    self.finding('R-C16-1', f, 'read-past-nul:%s(%s)' % (qn, nm),
+                                 '`%s` may read all %d bytes at `%s` although only %d leading byte(s) are known to be non-NUL there: unlike a '
+                                 'byte-by-byte comparison it does not stop at the first difference, so at a file that ends early it reads '
+                                 'past the terminating NUL, outside the buffer' % (tu.show(n)[:50], nbytes, nm, K), n)
+            return [fz(st)]
         if cf is None or tu.cfg(cf) is None:
             # library call: a tracked cursor handed over by non-const reference would escape
             for a in args:
@@ -867,7 +1017,10 @@ class Engine:
             if kind == 'cur':
                 v, nm = self.decl_of(a)
                 if v is not None and ('c', v) in st:
+                    self.need_nonnull(f, st, v, n, 'the call `%s`' % tu.show(n)[:40])
                     entry[('c', p['id'])] = st[('c', v)]
+                    if ('len', v) in st:
+                        entry[('len', p['id'])] = st[('len', v)]
                     if p['ct'].endswith('&'):
                         bind[p['id']] = v
                     elif not self.param_written(cf, p['id']):
@@ -879,6 +1032,9 @@ class Engine:
                     lit = tu.strip(a, casts=True)
                     if lit is not None and lit.get('kind') == 'StringLiteral':
                         entry[('c', p['id'])] = (min(self.strlen(lit), CAP), 0, 0, 0, ())
+                        lb_ = self.lit_bytes(lit)
+                        if lb_ is not None and 0 not in lb_:
+                            entry[('len', p['id'])] = len(lb_)
                         try:
                             import ast as pyast
                             first = pyast.literal_eval(lit.get('value', '""'))[:1]
@@ -2905,6 +3061,136 @@ def check_comment_repetition(ctx, tu):
                       % tu.show(nd)[:60], tu.loc(nd), key='%s|%s|%s|single-comment' % (R, tu.fn_file(f), inst))
 
 
+# ============================================================================================
+#  R-C16-14: the FILE opened by readXML is closed on every way out
+# ============================================================================================
+def check_file_handle(ctx, tu):
+    R = 'R-C16-14'
+    ctx.describe(R, 'every FILE* that the reader opens is closed on every way out of the function that opened it: on each return (fclose '
+                    'on every path) and when a callee throws (RAII owner, or a try block whose handler closes and rethrows); a leaked '
+                    'descriptor per rejected document ends with fopen failing for valid ones')
+    fs = tu.fns(q='rkcommon::xml::readXML')
+    if len(fs) != 1:
+        ctx.broken('%s: readXML not found' % R)
+        return
+    fns = [f for f in reachable_fns(tu, fs[0]) if tu.fn_file(f).startswith('rkcommon/')]
+    ex = ExcFacts(tu, fns)
+    n = 0
+    for f in fns:
+        body = tu.body(f)
+        if body is None:
+            continue
+        for vd in tu.walk(body):
+            if vd.get('kind') != 'VarDecl' or not tu.kids(vd):
+                continue
+            opens = [x for x in tu.walk(tu.kids(vd)[-1]) if x.get('kind') == 'CallExpr' and tu.sd(x).get('q', '').split('::')[-1] in ('fopen', 'fdopen', 'freopen')]
+            if not opens:
+                continue
+            n += 1
+            qt = vd.get('type', {}).get('qualType', '')
+            inst = '%s: %s %s' % (f['q'].replace('rkcommon::', ''), qt, vd.get('name'))
+            key = '%s|%s|%s|' % (R, tu.fn_file(f), f['q'].replace('rkcommon::', ''))
+            if 'unique_ptr' in qt or 'shared_ptr' in qt:
+                ctx.ok(R, inst, 'owned by a smart pointer with a closing deleter', tu.loc(vd))
+                continue
+            if not re.match(r'^(FILE|std::FILE|_IO_FILE) \*( const)?$', qt.replace('struct ', '')):
+                ctx.ok(R, inst, 'not decided here (the handle is kept in a `%s`)' % qt, tu.loc(vd), nontrivial=False)
+                continue
+            V = vd['id']
+
+            def closes(x):
+                return x.get('kind') == 'CallExpr' and tu.sd(x).get('q', '').split('::')[-1] == 'fclose' and \
+                    tu.call_parts(x)[2] and tu.ref_decl(tu.call_parts(x)[2][0]) == V
+            # (a) exceptional exits: a throwing construct after the open, outside a try block whose handlers close the file
+            leak = None
+            started = False
+            for x in _walk_no_lambda(tu, body):
+                if x is vd:
+                    started = True
+                    continue
+                if not started:
+                    continue
+                thrower = None
+                if x.get('kind') == 'CXXThrowExpr' and tu.kids(x):
+                    thrower = 'throw-expression'
+                elif x.get('kind') in CALLS:
+                    cf = tu.callee_fn(x)
+                    if cf is not None and cf['id'] in ex.fns and ex.may[cf['id']]:
+                        thrower = 'call of %s, which can throw (%s)' % (cf['q'].split('::')[-1], '; '.join(ex.witness(cf)[-1:]))
+                if thrower is None:
+                    continue
+                # protected if inside a try whose every handler closes the file, or directly preceded by a close on its path (throw after fclose)
+                cur, prot = x, False
+                while cur is not None and cur is not body:
+                    par = tu.par(cur)
+                    if par is not None and par.get('kind') == 'CXXTryStmt' and tu.kids(par) and tu.kids(par)[0] is cur:
+                        handlers = tu.kids(par)[1:]
+                        # (the parser's throws are all std::runtime_error, rule R-C16-3, so a handler for that type or a wider one catches them)
+                        if handlers and all(any(closes(y) for y in tu.walk(h)) for h in handlers):
+                            prot = True
+                            break
+                    cur = par
+                if not prot:
+                    # under `if (!file)` / `if (file == nullptr)` nothing is open
+                    cur = x
+                    while cur is not None and cur is not body and not prot:
+                        par = tu.par(cur)
+                        if par is not None and par.get('kind') == 'IfStmt' and len(tu.kids(par)) >= 2 and tu.kids(par)[1] is cur:
+                            c = tu.strip(tu.kids(par)[0], casts=True)
+                            if c is not None and c.get('kind') == 'UnaryOperator' and c.get('opcode') == '!' and tu.ref_decl(tu.kids(c)[0]) == V:
+                                prot = True
+                            if c is not None and c.get('kind') == 'BinaryOperator' and c.get('opcode') == '==' and \
+                                    any(tu.ref_decl(y) == V for y in tu.kids(c)) and any(
+                                        (tu.strip(y, casts=True) or {}).get('kind') in ('CXXNullPtrLiteralExpr', 'GNUNullExpr', 'IntegerLiteral')
+                                        for y in tu.kids(c)):
+                                prot = True
+                        cur = par
+                if not prot and x.get('kind') == 'CXXThrowExpr':
+                    # `fclose(file); throw ...;` in one statement sequence
+                    stmt = x
+                    while tu.par(stmt) is not None and tu.par(stmt).get('kind') not in ('CompoundStmt',):
+                        stmt = tu.par(stmt)
+                    seq = tu.kids(tu.par(stmt)) if tu.par(stmt) is not None else []
+                    idx = [i for i, y in enumerate(seq) if y is stmt]
+                    if idx and any(any(closes(z) for z in tu.walk(y)) for y in seq[:idx[0]]):
+                        prot = True
+                if not prot:
+                    leak = (x, thrower)
+                    break
+            if leak is not None:
+                ctx.violation(R, inst, 'after `%s` is opened a %s is reached outside any try block whose handlers close it (and the handle is a raw '
+                              'pointer, no RAII owner): each document that is rejected leaks one descriptor, and after RLIMIT_NOFILE '
+                              'rejections fopen fails, so valid documents are rejected as well' % (vd.get('name'), leak[1]), tu.loc(leak[0]),
+                              key=key + 'leaked-on-exception')
+                continue
+            # (b) normal exits: fclose on every path to a return
+            g = tu.cfg(f)
+            bad = []
+            if g is not None:
+                def transfer(blk, i, el, st):
+                    if el[0] != 'S':
+                        return [st]
+                    x = tu.node(el[1])
+                    if x is None:
+                        return [st]
+                    if x is vd or (x.get('kind') == 'DeclStmt' and any(y is vd for y in tu.kids(x))):
+                        return ['open']
+                    if closes(x):
+                        return ['closed']
+                    if x.get('kind') == 'ReturnStmt' and st == 'open':
+                        bad.append(x)
+                    return [st]
+                g.explore(['none'], transfer, None)
+            if bad:
+                ctx.violation(R, inst, 'a return is reached with `%s` still open (no fclose on that path)' % vd.get('name'), tu.loc(bad[0]),
+                              key=key + 'not-closed-on-return')
+            else:
+                ctx.ok(R, inst, 'closed on every return path; throwing constructs after the open are inside a try block whose handlers close it',
+                       tu.loc(vd))
+    if n == 0:
+        ctx.ok(R, 'xml::readXML call graph', 'no fopen in the %d functions reachable from readXML' % len(fns), tu.fn_loc(fs[0]), nontrivial=False)
+
+
 def run(ctx):
     ctx.assume('the buffer handed to parseXML is NUL-terminated (established by R-C16-3 for readXML)')
     ctx.assume('library character predicates (isalpha, isdigit, isspace) return false for the NUL byte')
@@ -2920,6 +3206,7 @@ def run(ctx):
     check_trim(ctx, tu)
     check_tokens_and_order(ctx, tu)
     check_comment_repetition(ctx, tu)
+    check_file_handle(ctx, tu)
     check_positive_examples(ctx)
     from rkstatic import selftest
     selftest.run(ctx)
